@@ -48,3 +48,46 @@ func VerifC18CreateWalletFault() {
 	}
 	rt.Reach("end")
 }
+
+// VerifC18ImportWalletFault: WalletManager.ImportWallet (keystore import cut to its contract; the imported wallet
+// has no address with history, or one) with one storage fault at an arbitrary fallible call outside the
+// keystore import, or none. A failed call leaves no cached keystore and no balance, status or address row and
+// queues no rescan; a successful one leaves exactly the new wallet, ready when it has no history and otherwise
+// importing with one rescan task queued.
+func VerifC18ImportWalletFault() {
+	st := txmgr.VerifNewStoresWithKeystoreManager([]byte("DJr6BomK"))
+	w := &WalletManager{config: &config.Config{Wallet: config.NewDefWalletConfig()}, db: st.DB, chainParams: config.ChainParams,
+		ksmgr: st.Ks, bucketMeta: st.Meta, utxoStore: st.Utxo, txStore: st.Tx, syncStore: st.Sync, chainFetcher: &c01Node{}}
+	st.VerifSetSyncedChain([]txmgr.BlockMeta{{Height: 5}})
+	h, herr := NewNtfnsHandler(w)
+	rt.Assert(herr == nil && h != nil, "handler-created")
+	w.ntfnsHandler = h
+	keystore.VerifNewKeystoreModel = true
+	defer func() { keystore.VerifNewKeystoreModel = false }()
+	keystore.VerifImportAddresses = rt.NondetLen(0, 1)
+	st.DB.Calls = 0
+	st.DB.FaultWrites = true
+	st.DB.FaultAt = rt.NondetLen(0, 10)
+	sum, err := w.ImportWallet("{}", "81lUHXXd7O9xylj")
+	st.DB.FaultAt = 0
+	names := w.ksmgr.ListKeystoreNames()
+	addrRows := st.Root.Sub("a").Ents
+	if err != nil {
+		rt.Assert(len(names) == 0, "failed-import-leaves-no-cached-keystore")
+		rt.Assert(len(st.Bal.Ents) == 0 && len(st.WS.Ents) == 0 && len(addrRows) == 0, "failed-import-leaves-no-rows")
+		rt.Assert(len(h.taskChan.C) == 0, "failed-import-queues-no-rescan")
+		rt.Reach("failed")
+	} else {
+		rt.Assert(sum != nil && len(names) == 1 && names[0] == sum.WalletID, "imported-wallet-is-the-only-cached-keystore")
+		rt.Assert(len(st.Bal.Ents) == 1 && len(st.WS.Ents) == 1 && string(st.WS.Ents[0].K) == sum.WalletID, "imported-wallet-has-its-rows")
+		ready, rerr := w.CheckReady(sum.WalletID)
+		rt.Assert(rerr == nil && ready == (keystore.VerifImportAddresses == 0), "ready-iff-nothing-to-rescan")
+		want := 0
+		if !ready {
+			want = 1
+		}
+		rt.Assert(len(h.taskChan.C) == want, "one-rescan-task-iff-importing")
+		rt.Reach("imported")
+	}
+	rt.Reach("end")
+}
